@@ -179,10 +179,25 @@ def mean_backward(grad:np.ndarray, a_shape:tuple, axis:'None| int | tuple', keep
     return out_grad / n_samples
 
 
+def tuple_axis_extremum_backward(grad, a, axis, keepdims, arg_fn):
+    # max/min over several axes at once: flatten those axes to find the arg-extremum of each slice
+    axes = tuple(ax % a.ndim for ax in axis)
+    last = tuple(range(a.ndim - len(axes), a.ndim))
+    moved = np.moveaxis(a, axes, last)
+    flat = moved.reshape(moved.shape[:a.ndim - len(axes)] + (-1,))
+    mask = np.zeros_like(flat)
+    np.put_along_axis(mask, arg_fn(flat, axis=-1, keepdims=True), 1, axis=-1)
+    mask = np.moveaxis(mask.reshape(moved.shape), last, axes)
+    if not keepdims:
+        grad = unsqueeze_forward(grad, axes)
+    return grad * mask
+
 def max_forward(a, axis, keepdims):
     return np.max(a, axis=axis, keepdims=keepdims)
 
 def max_backward(grad, a, axis, keepdims, max_indices=None):
+    if isinstance(axis, (tuple, list)):
+        return tuple_axis_extremum_backward(grad, a, axis, keepdims, np.argmax)
     # Create mask of ones and zeros, where the maximum value is 1 
     mask = np.zeros_like(a)
     if max_indices is None:
@@ -203,6 +218,8 @@ def min_forward(a, axis, keepdims):
     return np.min(a, axis=axis, keepdims=keepdims)
 
 def min_backward(grad, a, axis, keepdims):
+    if isinstance(axis, (tuple, list)):
+        return tuple_axis_extremum_backward(grad, a, axis, keepdims, np.argmin)
     # Create mask of ones and zeros, where the minimum value is 1 
     mask = np.zeros_like(a)
     indices_min = np.argmin(a, axis=axis, keepdims=True)
